@@ -651,6 +651,8 @@ func errClass(err error) string {
 	}
 	s := err.Error()
 	switch {
+	case strings.HasPrefix(s, "malformed RPM:"): // a recovered panic of the header parser (signers/rpm guard, f356386)
+		return "malformed"
 	case strings.Contains(s, "error reading RPM lead"):
 		return "lead"
 	case strings.Contains(s, "file is not an RPM"):
